@@ -377,6 +377,8 @@ pub enum Step {
     /// first genuine response for a probe of the round in progress
     Resp { idx: usize, ttl: u8, from_target: bool, t_ns: u64 },
     Publish { k: usize, t_ns: u64 },
+    /// the end of one loop iteration's receive step: the tracer evaluates the round policy here
+    Check { t_ns: u64 },
 }
 
 /// Linearise the log into sends, in-round first responses and publishes.
@@ -438,7 +440,11 @@ pub fn steps(log: &RunLog) -> Vec<Step> {
                 });
                 publishes += 1;
             }
-            _ => {}
+            Event::PollTimeout { t_ns } => out.push(Step::Check { t_ns: *t_ns }),
+            Event::Fault { .. } => {}
+        }
+        if let Event::Read { t_ns, .. } | Event::TcpObserved { t_ns, .. } = ev {
+            out.push(Step::Check { t_ns: *t_ns });
         }
     }
     out
